@@ -41,8 +41,13 @@ StOf(r) ==
      snaps |-> Range(r.snaps)]
 
 IsOk(r) == r.ret = "ok"
-Pre(i)  == StOf(Rec[i - 1].st)      \* only used when line i is not a reset
-Post(i) == StOf(Rec[i].st)
+\* operations that go through the compaction worker (the hook reports the choice made)
+CompactOps == {"compact", "major", "leveled", "movedown", "pulldown"}
+\* read-only lines (scans) do not repeat the state: the state of line i is the one
+\* recorded by the closest earlier line that is not read-only (at most 12 lines back)
+StIdx(i) == Max({j \in (IF i > 12 THEN i - 12 ELSE 1)..i : ~Rec[j].ro})
+Pre(i)  == StOf(Rec[StIdx(i - 1)].st)      \* only used when line i is not a reset
+Post(i) == StOf(Rec[StIdx(i)].st)
 
 -----------------------------------------------------------------------------
 (* ghost step                                                              *)
@@ -55,7 +60,7 @@ WriteEntries(r) ==
 StepHazard(i) ==
     LET r == Rec[i] IN
     IF r.op.op = "flush" THEN FlushHazard(Pre(i), r.op.w)
-    ELSE IF r.op.op \in {"compact", "major"} /\ "choice" \in DOMAIN r.info /\ r.info.choice[1] = 1
+    ELSE IF r.op.op \in CompactOps /\ "choice" \in DOMAIN r.info /\ r.info.choice[1] = 1
     THEN MergeHazard(Pre(i), {r.info.choice[j] : j \in 4..Len(r.info.choice)}, r.op.w)
     ELSE {}
 
@@ -66,7 +71,7 @@ GhostStep(a, i) ==
       [] r.op.op = "write"  -> AWrite(a, WriteEntries(r))
       [] r.op.op = "rotate" -> ARotate(a)
       [] r.op.op = "flush"  -> AHazard(AFlush(a), StepHazard(i))
-      [] r.op.op \in {"compact", "major"} -> AHazard(a, StepHazard(i))
+      [] r.op.op \in CompactOps -> AHazard(a, StepHazard(i))
       [] r.op.op = "reopen" -> AReopen(a)
       [] r.op.op = "clear"  -> AClear(a, r.info.s0)
       [] r.op.op = "droprange" ->
@@ -122,7 +127,7 @@ Expected(i) ==
                                                v |-> r.op.items[j].v] : j \in 1..Len(r.op.items)})
       [] r.op.op = "rotate"  -> OpRotate(pre)
       [] r.op.op = "flush"   -> OpFlush(pre, r.op.w)
-      [] r.op.op \in {"compact", "major"} -> CompactExpected(i)
+      [] r.op.op \in CompactOps -> CompactExpected(i)
       [] r.op.op = "reopen"  -> OpReopen(pre)
       [] r.op.op = "clear"   -> OpClear(pre)
       [] r.op.op = "droprange" -> OpDropRange(pre, [lo |-> r.op.lo, hi |-> r.op.hi])
@@ -154,6 +159,45 @@ ObsScanOk(r, a) ==
     \A j \in 1..Len(r.obs.scan) :
         LET S == r.obs.scan[j].S IN
         OnlyDefined(r.obs.scan[j].r, a, S) = OnlyDefined(OracleScan(a, S, FullBounds), a, S)
+
+\* consumption order of a double-ended scan: pat is a sequence of "F" / "B", applied cyclically
+RECURSIVE Consume(_, _, _)
+Consume(lst, pat, i) ==
+    IF lst = <<>> THEN <<>>
+    ELSE IF pat[((i - 1) % Len(pat)) + 1] = "B"
+         THEN <<lst[Len(lst)]>> \o Consume(SubSeq(lst, 1, Len(lst) - 1), pat, i + 1)
+         ELSE <<Head(lst)>> \o Consume(Tail(lst), pat, i + 1)
+
+\* C03: a scan with bounds / prefix / overlay / any next-next_back interleaving
+OverlayEntries(r) ==
+    IF "overlay" \notin DOMAIN r.op THEN {}
+    ELSE {[k |-> r.op.overlay[j].k, s |-> 2000000 + j - 1, t |-> r.op.overlay[j].t,
+           v |-> r.op.overlay[j].v] : j \in 1..Len(r.op.overlay)}
+
+ScanExpected(r, a) ==
+    LET S    == r.op.S
+        base == {e \in LiveAt(a, S) : e.s < S} \cup OverlayEntries(r)
+        b    == IF "pk" \in DOMAIN r.info THEN FullBounds ELSE [lo |-> r.op.lo, hi |-> r.op.hi]
+        full == ScanOf(base, 3 * Top, b)
+        sel  == IF "pk" \in DOMAIN r.info
+                THEN SelectSeq(full, LAMBDA p : p[1] \in Range(r.info.pk)) ELSE full
+    IN Consume(OnlyDefined(sel, a, S), r.op.pat, 1)
+
+ScanLineOk(r, a) ==
+    /\ r.info.tail_ok
+    /\ OnlyDefined(r.info.res, a, r.op.S) = ScanExpected(r, a)
+
+\* first_key_value / last_key_value / len / is_empty agree with the same model
+ScanExtrasOk(r, a) ==
+    \A j \in 1..Len(r.obs.scan) :
+        LET S == r.obs.scan[j].S
+            o == OracleScan(a, S, FullBounds)
+            x == r.obs.scan[j].x IN
+        (\A p \in Range(o) : Defined(a, p[1], S)) =>
+            /\ x.len = Len(o)
+            /\ x.empty = (o = <<>>)
+            /\ x.first = (IF o = <<>> THEN 0 ELSE o[1][1])
+            /\ x.last = (IF o = <<>> THEN 0 ELSE o[Len(o)][1])
 
 \* the model's read algorithm on the recorded structure agrees with the real read
 ModelReadAgrees(r) ==
@@ -195,11 +239,14 @@ CheckLine(i, a) ==
         /\ (Post(i) = InitState \/ Say("DRIFT", "init", i, DiffFields(Post(i), InitState)))
     ELSE IF r.ret # "ok" THEN
         /\ (r.rk = "skip" \/ Say("VIOL", "OPFAIL", i, r.ret))
+    ELSE IF r.ro THEN
+        /\ (ScanLineOk(r, a) \/ Say("VIOL", "SCANX", i, <<r.op, r.info, ScanExpected(r, a)>>))
     ELSE
     LET st == Post(i) IN
     /\ (ObsGetOk(r, a)          \/ Say("VIOL", "READ", i, r.obs.get))
     /\ (KnownHit(r, a) = {}     \/ Say("KNOWN", "C13-weak-shadow", i, KnownHit(r, a)))
     /\ (ObsScanOk(r, a)         \/ Say("VIOL", "SCAN", i, r.obs.scan))
+    /\ (ScanExtrasOk(r, a)      \/ Say("VIOL", "SCANX", i, r.obs.scan))
     /\ (PStructureSound(st)     \/ Say("VIOL", "STRUCT", i, st.hist))
     /\ (MetaOk(r.st)            \/ Say("VIOL", "META", i, r.st.tbls))
     /\ (HiOk(r)                 \/ Say("VIOL", "HI", i, r.obs.hi))
@@ -209,7 +256,7 @@ CheckLine(i, a) ==
     /\ (PSnapsResolve(st)       \/ Say("VIOL", "SNAPRES", i, st.snaps))
     /\ (ModelReadAgrees(r)      \/ Say("DRIFT", "read", i, r.obs.get))
     /\ (ChoiceLegal(i)          \/ Say("ILLEGAL", "choice", i, r.info))
-    /\ (r.op.op \notin {"compact", "major"} \/ "choice" \notin DOMAIN r.info
+    /\ (r.op.op \notin CompactOps \/ "choice" \notin DOMAIN r.info
           \/ ChoiceKind(r) # 1 \/ MergeOutputOk(i, r.op.w)
           \/ Say("DRIFT", "mergeout", i, r.info))
     /\ (Expected(i) = st        \/ Say("DRIFT", "state", i, DiffFields(Expected(i), st)))
